@@ -62,6 +62,7 @@ inductive Stmt
   | ret0
   | ret1 (a : Expr)
   | ret2 (a b : Expr)
+  | ret3 (a b c : Expr)
   | append (arr : String) (e : Expr)            -- `xs = append(xs, e)`
   | appendRec (arr : String) (fields : List (String × Expr))   -- `xs = append(xs, v)` for a struct value v: field by field
   /-- a call as a statement: `d0, d1 := fn(args)`, `fn(args)`, or — with `fn = "$dyn"` and the function value as first
@@ -449,6 +450,8 @@ def exec (ext : Ext F) : Nat → Stmt → State F → Outcome F
   | _, .ret0, s => .returned [] s
   | _, .ret1 a, s => bindS (evalE ext a s) fun v s1 => .returned [v] s1
   | _, .ret2 a b, s => bindS (evalE ext a s) fun va s1 => bindS (evalE ext b s1) fun vb s2 => .returned [va, vb] s2
+  | _, .ret3 a b c, s => bindS (evalE ext a s) fun va s1 => bindS (evalE ext b s1) fun vb s2 =>
+      bindS (evalE ext c s2) fun vc s3 => .returned [va, vb, vc] s3
   | _, .append arr e, s => bindS (evalE ext e s) fun v s1 => .normal ((s1.push arr [("", v)]).set arr .nonNil)
   | _, .appendRec arr fields, s => bindL (evalL ext (fields.map (·.2)) s) fun vs s1 =>
       .normal ((s1.push arr ((fields.map (·.1)).zip vs)).set arr .nonNil)
@@ -755,6 +758,9 @@ theorem evalE_bin_gen (op : BinOp) (h1 : op ≠ .land) (h2 : op ≠ .lor) (a b :
     bindS (evalE ext a σ) fun v s1 => .returned [v] s1 := by simp [exec]
 @[minigo] theorem exec_ret2 (fuel : Nat) (a b : Expr) : exec ext fuel (.ret2 a b) σ =
     bindS (evalE ext a σ) fun va s1 => bindS (evalE ext b s1) fun vb s2 => .returned [va, vb] s2 := by simp [exec]
+@[minigo] theorem exec_ret3 (fuel : Nat) (a b c : Expr) : exec ext fuel (.ret3 a b c) σ =
+    bindS (evalE ext a σ) fun va s1 => bindS (evalE ext b s1) fun vb s2 =>
+      bindS (evalE ext c s2) fun vc s3 => .returned [va, vb, vc] s3 := by simp [exec]
 @[minigo] theorem exec_unsupported (fuel : Nat) (w : String) : exec ext fuel (.unsupported w) σ =
     .error w := by simp [exec]
 @[minigo] theorem exec_append (fuel : Nat) (arr : String) (e : Expr) : exec ext fuel (.append arr e) σ =
@@ -823,6 +829,7 @@ def atomicOps : Stmt → List String
   | .scope b => atomicOps b
   | .while c b => atomicOpsE c ++ atomicOps b
   | .ret2 a b => atomicOpsE a ++ atomicOpsE b
+  | .ret3 a b c => atomicOpsE a ++ atomicOpsE b ++ atomicOpsE c
   | .append _ e => atomicOpsE e
   | .appendRec _ fs => (fs.map fun f => atomicOpsE f.2).flatten
   | .callS _ fn _ args => (args.map atomicOpsE).flatten ++ ["call " ++ fn]
